@@ -464,10 +464,40 @@ theorem lstep_watchProcess (st : St) (pid : Int) (flags : Nat) (slot : Int) : LS
   simp only []
   have gW := g4_waitpid sB pid
   split
-  · -- pre-exited: the watch stays unlisted, a `later` is registered
+  · -- pre-exited: a `later` is registered; as shipped the watch stays unlisted, repaired it is linked
     have gS := gW.trans (g4_setWstatus (waitpid sB pid).st st.heap.length (waitpid sB pid).wstatus)
     have fS : LFacts st _ := (LStep.trans (fun _ _ => fB) gS.lstep) hc w
-    exact (LStep.trans (fun _ _ => fS) (lstep_watchLater _ 0 (-4) st.heap.length)) hc w
+    split
+    · generalize ((waitpid sB pid).st.setW st.heap.length { (waitpid sB pid).st.getW st.heap.length with wstatus := (waitpid sB pid).wstatus }) = sS at *
+      have haltS : st.heap.length < sS.heap.length := Nat.lt_of_lt_of_le haltB gS.ext.len
+      have hliveS : sS.live st.heap.length = true := by rw [(gS.ext.same _ haltB).1]; exact hkeep.1
+      have htypS : (sS.getW st.heap.length).type = .process := by rw [(gS.ext.same _ haltB).2]; exact hkeep.2
+      have hunS : ∀ t, st.heap.length ∉ listOf sS t := fun t h => by rw [gS.lists] at h; exact hunB t h
+      have fL' := lstep_watchLater sS 0 (-4) st.heap.length (by rw [fS.cfg]; exact hc) fS.wf
+      have fL : LFacts st (watchLater sS 0 (-4) st.heap.length).1 := (LStep.trans (fun _ _ => fS) (lstep_watchLater sS 0 (-4) st.heap.length)) hc w
+      have hunL := unlisted_after fL' haltS hunS
+      have hH : H4 sS (watchLater sS 0 (-4) st.heap.length).1 := by
+        unfold watchLater
+        exact ((g4_alloc sS _).trans (g4_insertWatch _ _ _ _)).ext.trans (H4.of_heap_eq rfl)
+      generalize hsl : watchLater sS 0 (-4) st.heap.length = rL at *
+      unfold linkNotified
+      have gN : G4 rL.1 (setNotify rL.1 st.heap.length (some rL.2)) := by
+        unfold setNotify; exact g4_setW _ _ _ rfl rfl
+      have fN : LFacts st (setNotify rL.1 st.heap.length (some rL.2)) := (LStep.trans (fun _ _ => fL) gN.lstep) hc w
+      have haltL : st.heap.length < rL.1.heap.length := Nat.lt_of_lt_of_le haltS hH.len
+      have gI := g4_insertWatch (setNotify rL.1 st.heap.length (some rL.2)) (setNotify rL.1 st.heap.length (some rL.2)).procs flags st.heap.length
+      have hl := snd_insertWatch (setNotify rL.1 st.heap.length (some rL.2)) (setNotify rL.1 st.heap.length (some rL.2)).procs flags st.heap.length
+      apply lfacts_link st (setNotify rL.1 st.heap.length (some rL.2)) _ st.heap.length .process fN (Nat.le_refl _)
+      · rw [(gN.ext.same _ haltL).1, (hH.same _ haltS).1]; exact hliveS
+      · rw [(gN.ext.same _ haltL).2, (hH.same _ haltS).2]; exact htypS
+      · intro t h; rw [gN.lists] at h; exact hunL t h
+      · exact gI.ext.trans (H4.of_heap_eq rfl)
+      · exact hl
+      · intro t ht
+        have := gI.lists t
+        cases t <;> first | exact this | exact absurd rfl ht
+      · exact gI.cfg
+    · exact (LStep.trans (fun _ _ => fS) (lstep_watchLater _ 0 (-4) st.heap.length)) hc w
   · have gI := g4_insertWatch (waitpid sB pid).st (waitpid sB pid).st.procs flags st.heap.length
     have hl := snd_insertWatch (waitpid sB pid).st (waitpid sB pid).st.procs flags st.heap.length
     have fW : LFacts st (waitpid sB pid).st := (LStep.trans (fun _ _ => fB) gW.lstep) hc w
@@ -551,8 +581,8 @@ theorem g4_laterPre (st : St) (a : Nat) : G4 st (laterPre st a) := by
   · exact g4_setW _ a _ rfl rfl
   · exact G4.refl _
 
-theorem l_watchCancel (st : St) (a : Nat) : LStep st (watchCancel st a) := by
-  unfold watchCancel
+theorem l_watchCancel0 (st : St) (a : Nat) : LStep st (watchCancel0 st a) := by
+  unfold watchCancel0
   split
   · exact LStep.refl st
   · split
@@ -569,6 +599,14 @@ theorem l_watchCancel (st : St) (a : Nat) : LStep st (watchCancel st a) := by
           · rename_i hcn
             have : a ∈ listOf st (st.getW a).type := by simpa using hcn
             exact lstep_cancelFound st a this
+
+theorem l_watchCancel (st : St) (a : Nat) : LStep st (watchCancel st a) := by
+  unfold watchCancel
+  split
+  · split
+    · exact (l_watchCancel0 st a).trans (l_watchCancel0 _ _)
+    · exact l_watchCancel0 st a
+  · exact l_watchCancel0 st a
 
 theorem lstep_unlink_found (st : St) (a : Nat) (t0 : WType) (ha : a ∈ listOf st t0) :
     LStep st (((setListOf st t0 ((listOf st t0).erase a)).setW a { st.getW a with type := .none }).free a) := by
@@ -780,11 +818,17 @@ theorem l_onSigchldAny (fuel : Nat) (st : St) : LStep st (onSigchldAny fuel st) 
   · exact l_onSigchld _ _ _
 
 
+theorem g4_clearNotify (st : St) (a : Nat) : G4 st (clearNotify st a) := by
+  unfold clearNotify
+  split
+  · unfold setNotify; exact g4_setW _ _ _ rfl rfl
+  · exact G4.refl _
+
 theorem l_processNotify (st : St) (a : Nat) : LStep st (processNotify st a) := by
   unfold processNotify
   split
   · exact (g4_fail _ _).lstep
-  · exact l_invokeWatch _ _ _ _
+  · exact (g4_clearNotify _ _).lstep.trans (l_invokeWatch _ _ _ _)
 
 
 theorem l_laterCb (st : St) (a : Nat) : LStep st (laterCb st a) := by
